@@ -32,7 +32,9 @@ class Named(NamedBox):
 
     @cached_property
     def defines_single(self) -> list[str]:
-        return list({self.name, *super().defines_single})
+        # NOTE: not super(): the inherited cached_property has the same name and
+        #   would store the value without self.name in this object for a moment
+        return list({self.name, *self.exp.defines_single})
 
     def _pretty(self, lean=False):
         if lean:
@@ -49,7 +51,7 @@ class NamedList(Named):
 
     @cached_property
     def defines_list(self) -> list[str]:
-        return list({self.name, *super().defines_list})
+        return list({self.name, *self.exp.defines_list})
 
     def _pretty(self, lean=False):
         if lean:
